@@ -11,6 +11,7 @@ import (
 	"github.com/hugelgupf/p9/p9"
 
 	"verif/internal/ev"
+	"verif/internal/memfs"
 	"verif/internal/quiesce"
 	"verif/internal/rawpeer"
 	"verif/internal/recfs"
@@ -20,7 +21,7 @@ import (
 func init() {
 	ev.Register(&ev.Spec{
 		ID: "C18", Level: "exploration",
-		Rule:    "histories of same-type messages with shrinking and growing variable parts (name lists 200 -> 16 -> 2 -> 0 -> 5, strings 65535 -> 300 -> 1 -> 0 -> 40 bytes, payloads msize-bound -> 4096 -> 7 -> 0 -> 100) for Twalk, Twalkgetattr, Twrite, Tattach, Tsymlink, Tusymlink, Trenameat, Txattrwalk, Txattrcreate+Twrite, Tread, Treaddir, interleaved over 2-4 connections to one server (the message cache and buffer pools are process-wide / per connection), with rejected frames in between (objects abandoned mid-decode) and frames of 14 types that end before their fields do (nothing may be completed from bytes outside the frame: no backend call, no binding lost or made), reads of n then m < n bytes with a backend that fills only half of what it reports, repeated Tversion changing msize between reads; every backend-observed argument and every reply byte is compared with the reference decode/encode of that frame alone. Thorough adds concurrent connections under the race detector. Non-trivial: the previous message of that type on any connection had a longer variable part; distinct by (type, previous length class, length class, connection switch).",
+		Rule:    "histories of same-type messages with shrinking and growing variable parts (name lists 200 -> 16 -> 2 -> 0 -> 5, strings 65535 -> 300 -> 1 -> 0 -> 40 bytes, payloads msize-bound -> 4096 -> 7 -> 0 -> 100) for Twalk, Twalkgetattr, Twrite, Tattach, Tsymlink, Tusymlink, Trenameat, Txattrwalk, Txattrcreate+Twrite, Tread, Treaddir, interleaved over 2-4 connections to one server (the message cache and buffer pools are process-wide / per connection), with rejected frames in between (objects abandoned mid-decode) and frames of 14 types that end before their fields do (nothing may be completed from bytes outside the frame: no backend call, no binding lost or made), reads of n then m < n bytes with a backend that fills only half of what it reports, repeated Tversion changing msize between reads; every backend-observed argument and every reply byte is compared with the reference decode/encode of that frame alone. Both tiers: up to 64 Treads in flight on one connection over files whose content is a function of (file, offset), most reads running into end of file ((n, io.EOF) from the backend), every reply compared byte for byte with what its own request must yield. Thorough adds concurrent connections under the race detector. Non-trivial: the previous message of that type on any connection had a longer variable part; distinct by (type, previous length class, length class, connection switch).",
 		Assume:  []string{"recfs deep-copies arguments at call time", "a backend may leave part of the read buffer untouched: those bytes must be zero, not stale"},
 		Shards:  shards(8, 16),
 		Race:    raceIn("thorough"),
@@ -529,6 +530,7 @@ func runC18(c *ev.Ctx) {
 		}
 		w.close()
 	}
+	c18Pipelined(c)
 	if c.Thorough() {
 		c18Concurrent(c)
 	}
@@ -587,5 +589,133 @@ func c18Concurrent(c *ev.Ctx) {
 		}
 		c.Case(fmt.Sprintf("concurrent:%d", round), true)
 		w.close()
+	}
+}
+
+// c18Pipelined: many Treads in flight on ONE connection, over files whose
+// content is a function of (file, offset) and which are small enough that most
+// reads run into end of file (the backend then returns (n, io.EOF), as os.File
+// does). Every reply must carry exactly the bytes of its own request: the read
+// buffers a connection recycles must never be shared by two replies in flight.
+func c18Pipelined(c *ev.Ctx) {
+	r := c.Rand("c18pipe")
+	rounds := c.Sz(40, 3000)
+	for round := 0; round < rounds; round++ {
+		rr := r.Fork(uint64(round))
+		if !c.Mine(round) {
+			continue
+		}
+		c.Begin(fmt.Sprintf("C18 pipelined reads round %d", round))
+		fs := memfs.New()
+		const nfiles = 6
+		var nodes []*memfs.Node
+		for k := 0; k < nfiles; k++ {
+			n := fs.MkPath(fmt.Sprintf("/p%d", k), p9.ModeRegular|0644, "")
+			n.Synth, n.SynthSz = true, uint64(1+rr.Intn(6000))
+			if k == 0 {
+				n.SynthSz = 1 << 20
+			}
+			nodes = append(nodes, n)
+		}
+		if round%2 == 1 {
+			fs.SetJitter(uint64(round) + c.Seed)
+		}
+		fs.NoLog = true
+		srv := p9.NewServer(fs)
+		msize := []uint32{4096, 8192, 1 << 16}[round%3]
+		s, vr := newSess(srv, msize, v7)
+		ok := vr.OK && s.attach(0, "").Errno() == 0
+		for k := 0; k < nfiles && ok; k++ {
+			ok = s.walk(0, uint64(10+k), fmt.Sprintf("p%d", k)).Errno() == 0 && s.open(uint64(10+k), 0).Errno() == 0
+		}
+		if !ok {
+			c.Violation("C18:valid-request-refused-over-a-backend-that-accepts-everything:setup", map[string]any{"workload": "pipelined"})
+			s.P.Close()
+			continue
+		}
+		inflight := []int{2, 3, 8, 32, 64}[rr.Intn(5)]
+		total := inflight * (6 + rr.Intn(6))
+		type rd struct {
+			k        int
+			off, cnt uint64
+		}
+		out := map[uint16]rd{}
+		p := s.P
+		cons := p.NReplies()
+		sent, bad := 0, false
+		send := func(tag uint16) {
+			q := rd{k: rr.Intn(nfiles), cnt: uint64(rr.Intn(int(msize)))}
+			sz := nodes[q.k].SynthSz
+			switch rr.Intn(4) {
+			case 0:
+				q.off = uint64(rr.Intn(int(minU64(sz, 1<<16)) + 1))
+			case 1:
+				if sz > q.cnt {
+					q.off = sz - q.cnt // ends exactly at end of file
+				}
+			default:
+				q.off = sz - minU64(sz, uint64(rr.Intn(300))) // runs into end of file
+			}
+			out[tag] = q
+			p.Send(wire.Tread, tag, u(uint64(10+q.k)), q.off, q.cnt)
+			sent++
+		}
+		for t := 0; t < inflight; t++ {
+			send(uint16(100 + t))
+		}
+		eofs := 0
+		for !bad && len(out) > 0 {
+			rep := p.PollFrom(&cons)
+			if rep == nil {
+				if st, dump := quiesce.WaitUntil(func() bool { return p.NReplies() > cons || p.ReadErr() != nil }, wd); st != quiesce.CondMet {
+					hang(c, st, dump, "C18:pipelined:reads-unanswered", map[string]any{"in_flight": len(out)})
+					bad = true
+				} else if p.ReadErr() != nil && p.NReplies() <= cons {
+					c.Violation("C18:pipelined:connection-ended", map[string]any{"err": p.ReadErr().Error()})
+					bad = true
+				}
+				continue
+			}
+			q, mine := out[rep.Msg.Tag]
+			if !mine {
+				continue
+			}
+			delete(out, rep.Msg.Tag)
+			det := map[string]any{"file": q.k, "offset": q.off, "count": q.cnt, "file_size": nodes[q.k].SynthSz, "in_flight": inflight, "msize": msize}
+			if rep.Msg.Type != wire.Rread {
+				det["reply"] = rep.Msg.String()
+				c.Violation("C18:pipelined:read-refused", det)
+				bad = true
+				break
+			}
+			d := rep.Msg.F[0].([]byte)
+			want := uint64(0)
+			if sz := nodes[q.k].SynthSz; q.off < sz {
+				want = minU64(minU64(q.cnt, sz-q.off), uint64(msize)-11)
+			}
+			if q.off+q.cnt >= nodes[q.k].SynthSz {
+				eofs++
+			}
+			if uint64(len(d)) != want {
+				det["got"], det["want"] = len(d), want
+				c.Violation("C18:pipelined:read-reply-has-another-length-than-the-backend-produced", det)
+				bad = true
+				break
+			}
+			for i := range d {
+				if d[i] != memfs.SynthByte(nodes[q.k].ID, q.off+uint64(i)) {
+					det["first_difference_at"] = i
+					c.Violation("C18:pipelined:read-reply-carries-bytes-the-backend-did-not-produce-for-it", det)
+					bad = true
+					break
+				}
+			}
+			c.Count("pipelined_reads_checked", 1)
+			if sent < total {
+				send(rep.Msg.Tag)
+			}
+		}
+		c.Case(fmt.Sprintf("pipelined:%d:%d:eof=%v", inflight, msize, eofs > 0), eofs > 0 && inflight >= 2)
+		s.P.Close()
 	}
 }
